@@ -61,6 +61,10 @@ def run(prop, tier, replay):
         for i, (info, r, tr) in enumerate(res):
             nev += info["events"]
             ck.add_tlc("RomTrace chunk %d" % i, r, "%d events / %d scenarios" % (info["events"], info["scenarios"]))
+            notes = r.tuple_prints("NOTE")
+            if notes:
+                log("note (outside the listed properties): %d events where Header.Score/ROMSizeBytes/RAMSizeBytes differ from Rom.tla" % len(notes))
+                ck.add_part("extra coverage notes chunk %d" % i, notes=len(notes))
             for b in r.json_prints("BAD"):
                 p = KIND_PROP.get(b["ev"]["k"], "C09")
                 if p == prop:
